@@ -11,9 +11,9 @@ LEAN_MODULE = 'PncProofs.C13'
 LEAN_FILE = 'PncProofs/C13.lean'
 NAMESPACE = 'Props.C13'
 LEAN_CONE = ['PncModel.Words', 'PncModel.Camx.Uamiv', 'PncModel.Camx.Slab', 'PncModel.Camx.SlabRead', 'PncModel.Camx.UamivRead', 'PncModel.Camx.WindRecRead', 'PncProofs.WordsLemmas', 'PncProofs.SlabLemmas', 'PncProofs.SlabReadLemmas',
-             'PncProofs.BridgeLemmas', 'PncProofs.UamivReadLemmas', 'PncProofs.UamivReadEncode', 'PncProofs.C13']
-LEMMA_FILES = ['PncProofs/SlabLemmas.lean', 'PncProofs/BridgeLemmas.lean', 'PncProofs/SlabReadLemmas.lean', 'PncProofs/UamivReadLemmas.lean', 'PncProofs/UamivReadEncode.lean']
-REQUIRED_THEOREMS = ['chunk_records', 'leading_eq', 'mm_decode_encode', 'single_step_rejected', 'read_decode_encode', 'readers_agree', 'read_temp_decode_encode', 'readers_agree_temperature', 'uamiv_readers_agree_words', 'uamiv_read_encode', 'exUamiv_oneDay']
+             'PncProofs.BridgeLemmas', 'PncProofs.UamivReadLemmas', 'PncProofs.UamivReadEncode', 'PncProofs.WindLemmas', 'PncProofs.WindRecLemmas', 'PncProofs.WindRecThm', 'PncProofs.C13']
+LEMMA_FILES = ['PncProofs/SlabLemmas.lean', 'PncProofs/BridgeLemmas.lean', 'PncProofs/SlabReadLemmas.lean', 'PncProofs/UamivReadLemmas.lean', 'PncProofs/UamivReadEncode.lean', 'PncProofs/WindRecLemmas.lean', 'PncProofs/WindRecThm.lean']
+REQUIRED_THEOREMS = ['chunk_records', 'leading_eq', 'mm_decode_encode', 'single_step_rejected', 'read_decode_encode', 'readers_agree', 'read_temp_decode_encode', 'readers_agree_temperature', 'uamiv_readers_agree_words', 'uamiv_read_encode', 'exUamiv_oneDay', 'wind_readers_agree', 'exWind_reg']
 RULE = ('wind files (both time-header variants, 1-9 time steps) and files of the formats that have both reader families and a uniform layout (one3d, humidity, vertical '
         'diffusivity, temperature, height/pressure: 2-4 steps, 1-3 layers, 1-4 rows and columns, hour steps of 1 or 3 '
         'incl. midnight and year-end starts, also 6, 12 and 24 hour steps over up to 6 steps (several midnights), readers called with and without rows/columns, any float32 payload; gridded average files in the domain of the record '
@@ -25,7 +25,7 @@ ASSUMPTIONS = ['wind: layout (Lean encoder), the Memmap reader against its Lean 
                'record readers: the one3d family, height/pressure and temperature are modelled (SlabRead.lean: layer count, step, end search / last record, '
                'timerange, record positions over integer HHMM arithmetic) and proved to present the written content on regular time '
                'axes (read_decode_encode, readers_agree, read_temp_decode_encode, readers_agree_temperature); Python float division int(a/b) and a//b are taken to equal integer truncating / floor division '
-               'for these magnitudes; the wind record reader is compared, not modelled',
+               'for these magnitudes; the wind record reader is modelled too (WindRecRead.lean: RecordFile.next by markers, layer count up to the second time header, end search in jumps of 2*layers+1 records, byte positions) and proved (wind_readers_agree: files of at least two steps on a regular axis)',
                'uamiv record reader: modelled (UamivRead.lean: header walk by markers, step from the first time record, count from the file header with the 24/2400 heuristic, EMISSIONS/AIRQUALITY special cases, timerange, byte positions) and compared with the real reader on every generated gridded file, also those it misreads or rejects; theorems uamiv_readers_agree_words (any file with standard headers and a time axis inside one day) and uamiv_read_encode; the agreement oracle runs on AVERAGE/INSTANT files inside one day (1, 2, 3, 4, 6 hour steps, any counts) and on 2-D emission files']
 MIN_NONTRIVIAL = {'quick': 40, 'thorough': 400}
 NPROC = {'quick': 4, 'thorough': 12}
